@@ -82,7 +82,7 @@ def obligations(repo):
     # an undecided part of C15 (see META); their memory safety on arbitrary bytes is C16.deser.safe.array.
     # request buffer: vm_ffi_call_cop builds the request in uint8_t payload[8192]
     CREPL = ["cop_serialize_value", "cop_deserialize_value", "cop_send", "cop_recv_header", "cop_recv_payload", "vm_ffi_call", "vm_ffi_cop_start"]
-    obs.append(dict(id="C15.reqbuf.argc1", prop="C15", harness="harness/cop_call_h.c", entry="h_call", defines={"COP_REQBUF": 1, "VERIF_COP_MAX_SCALED": 32768},
+    obs.append(dict(id="C15.reqbuf.argc1", prop="C15", harness="harness/cop_call_h.c", entry="h_call", defines={"COP_REQBUF": 1, "VERIF_COP_MAX_SCALED": 32768}, mem_gb=30,
                     enforce="vm_ffi_call_cop", replace=CREPL, sources=["src/nanovm/cop_protocol.c"], unwind=8,
                     unwindset=["vm_ffi_call_cop_wrapped_for_contract_checking.0:4", "vm_ffi_call_cop_wrapped_for_contract_checking.1:3"],
                     strength="B(protocol constant COP_MAX_PAYLOAD scaled from 16 MiB to 32 KiB in the TU under proof)",
